@@ -103,6 +103,14 @@ def check_table(case):
             bad.append(({'kind': 'table_bytes_from_a_generator_differ'}, 'rows given as a generator: %d bytes, as a list %d bytes' % (len(body3), len(body))))
     except Exception as err:  # noqa
         bad.append(({'kind': 'table_write_raises', 'exc': type(err).__name__, 'rows': 'generator'}, 'rows given as a generator: %s: %s' % (type(err).__name__, err)))
+    # the same table in the other sequence types a caller may hold it in: rows as tuples, (value, units) pairs as lists, labels as a tuple
+    try:
+        tw4 = LogiRec.LrTableWrite(case['lrtype'], case['name'], tuple(cols), tuple(tuple(list(c) if isinstance(c, tuple) else c for c in row) for row in table_arg))
+        body4 = bytes([case['lrtype'], 0]) + b''.join(bytes(b) for b in tw4.genLisBytes())
+        if body4 != body:
+            bad.append(({'kind': 'table_bytes_from_other_sequence_types_differ'}, 'rows as tuples, pairs as lists, labels as a tuple: %d bytes, as lists of tuples %d bytes' % (len(body4), len(body))))
+    except Exception as err:  # noqa
+        bad.append(({'kind': 'table_write_raises', 'exc': type(err).__name__, 'rows': 'tuples of lists'}, 'rows as tuples, (value, units) pairs as lists: %s: %s' % (type(err).__name__, err)))
     # listing the rows (in any order) is a query: a second writer that is asked for its sorted row names first writes the same bytes
     try:
         tw2 = LogiRec.LrTableWrite(case['lrtype'], case['name'], cols, table_arg)
